@@ -100,6 +100,20 @@ def build(repo):
     f = SourceFile(repo, "src/generate/generate_statements.rs")
     s0, ob0, cb0 = f.find_fn_span("generate_function_call")
     blk = f.block(r"^\s*if f\.interrupt\b", r"^\s*let mut return_tmp\b", s0, cb0, desc="generate_function_call(): interrupt check .. call-tree recording .. flags reset (R8)")
+    # R8: single-line `let` statements (and comments) that stand directly before the block belong to it (locals the block uses)
+    at = f.text.find(blk.text, s0)
+    pre = []
+    while at > 0:
+        ps_ = f.text.rfind("\n", 0, at - 1) + 1
+        ln = f.text[ps_:at].strip()
+        if (re.match(r"^let (mut )?\w+(: [\w<>&]+)? = [^;{}]*;$", ln) or ln.startswith("//")) and ps_ > ob0:
+            pre.insert(0, f.text[ps_:at]); at = ps_
+        else:
+            break
+    if any(l.strip().startswith("let ") for l in pre):
+        blk.text = "".join(pre) + blk.text
+        blk.line0 -= len(pre)
+        blk.log.append("R8 window extended upwards over %d `let` / comment line(s)" % len(pre))
     cuts = [blk]
     if "functions_call_tree" not in blk.text:
         raise Undecided("the block between the interrupt check and `let mut return_tmp` no longer contains the call-tree recording")
@@ -138,7 +152,7 @@ def build(repo):
     blk.sub(r"\"ROM_SELECT\"\.into\(\)", '"ROM_SELECT".to_string()', "R3-into", expect=(0, 4))
     blk.sub(r"self\.bankswitching_scheme\.starts_with\(\"SuperGame\"\)", "starts_with_supergame(self.bankswitching_scheme)", "R15 starts_with", expect=(0, 4))
     blk.sub(r"let mut v = Vec::new\(\);", "let mut v: Vec<String> = Vec::new();", "R3-type", expect=(0, 1))
-    fm = common.Fmt({"*var": ("str", "var")})
+    fm = common.Fmt({"*var": ("str", "var"), "var": ("str", "var")})
     fm.apply(blk)
     free = []
     for m_ in re.finditer(r"\bif !?([a-z_]\w*) \{", mask(blk.text)):
